@@ -531,6 +531,14 @@ func $NB(a int) (res int) {
 const seqFuncDecl = "func $NSeq(n int) func(func(int) bool) {\n\treturn func(y func(int) bool) {\n\t\tfor i := 0; i < n; i++ {\n\t\t\tif !y(i) {\n\t\t\t\treturn\n\t\t\t}\n\t\t}\n\t}\n}"
 
 var injections7 = []injection{
+	// defer in positions where NO yield follows it in the source text but more of the generator runs after it at run time
+	// (the next iteration, the code after the enclosing if/switch): in the bare host nothing follows the injected statement
+	{name: "defer-at-end-of-yielding-loop-body", stmt: "for i := 0; i < 2; i++ {\n\t\t$YIELD{i}\n\t\tdefer tr.Ev(1, i)\n\t}"},
+	{name: "defer-in-if-after-yield-then-plain-code", stmt: "$YIELD{5}\n\tif a >= 0 {\n\t\tdefer tr.Ev(1, a)\n\t}\n\ttr.Ev(2)"},
+	{name: "defer-in-switch-case-after-yield-then-plain-code", stmt: "$YIELD{5}\n\tswitch {\n\tcase a >= 0:\n\t\tdefer tr.Ev(1, a)\n\t}\n\ttr.Ev(2)"},
+	{name: "defer-as-last-statement-after-yield", stmt: "$YIELD{5}\n\tdefer tr.Ev(1, a)"},
+	{name: "defer-first-then-yielding-loop", stmt: "defer tr.Ev(1, a)\n\tfor i := 0; i < 2; i++ {\n\t\t$YIELD{i}\n\t}"},
+	{name: "two-defers-around-a-yield-lifo", stmt: "defer tr.Ev(1, a)\n\t$YIELD{5}\n\tdefer tr.Ev(2, a)"},
 	{name: "range-over-func-trivial", stmt: "for v := range $NSeq(2) {\n\t\ttr.Ev(1, v)\n\t}", decls: seqFuncDecl},
 	{name: "control-range-over-func-in-closure", control: true, stmt: "func() {\n\t\tfor v := range $NSeq(3) {\n\t\t\tif v == 2 {\n\t\t\t\tbreak\n\t\t\t}\n\t\t\ttr.Ev(1, v)\n\t\t}\n\t}()", decls: seqFuncDecl},
 	{name: "control-goto-over-range-loop-in-closure", control: true, stmt: "func() {\n\t\tif a >= 1 {\n\t\t\tgoto done\n\t\t}\n\t\tfor i, v := range []int{5, 6} {\n\t\t\ttr.Ev(1, i, v)\n\t\t}\n\t\tfor i := range 2 {\n\t\t\ttr.Ev(2, i)\n\t\t}\n\tdone:\n\t\ttr.Ev(3)\n\t}()"},
